@@ -122,13 +122,6 @@ impl DocumentBuilder {
         }
         let value_span = value.into();
         let value = parse_attribute(value.as_str().into(), value.start())?.to_string();
-        // if this is an xml:id we want to apply xml:id normalization as described here
-        // https://www.w3.org/TR/xml-id/#id-avn
-        let value = if name == "id" && prefix == "xml" {
-            normalize_xml_id(&value)
-        } else {
-            value
-        };
         attributes.push(AttributeBuilder {
             prefix: prefix.to_string(),
             name: name.to_string(),
@@ -203,6 +196,17 @@ impl DocumentBuilder {
                     attribute_builder.name_span,
                 ));
             }
+            // if this is an xml:id (by its expanded name, whatever prefix
+            // it was written with) we want to apply xml:id normalization as
+            // described here https://www.w3.org/TR/xml-id/#id-avn
+            let attribute_builder = if name_id == self.xml_id_id {
+                AttributeBuilder {
+                    value: normalize_xml_id(&attribute_builder.value),
+                    ..attribute_builder
+                }
+            } else {
+                attribute_builder
+            };
             // if we see xml:id, check that they aren't a duplicate
             // and keep track of all node ids that have an xml:id
             if name_id == self.xml_id_id {
